@@ -281,7 +281,7 @@ def anyLoop : (fuel : Nat) → List Rule → Tree → Env → Except Abn (Option
     | .ok (some _, env') => .ok (some env')
     | .ok (none, _) => anyLoop fuel rs n env
 
-/-- `children.filter_map(|child| rule.match_node_with_env(child, &mut scratch))` of
+/-- `children.filter(|child| rule.match_node_with_env(child.clone(), &mut scratch).is_some())` of
 `NthChild::find_index`: every sibling is tested on a scratch copy of the caller's env -/
 def filterMapRule : (fuel : Nat) → Rule → List Tree → Env → Except Abn (List Tree)
   | 0, _, _, _ => .error .fuel
@@ -292,7 +292,7 @@ def filterMapRule : (fuel : Nat) → Rule → List Tree → Env → Except Abn (
     | .ok (m, _) =>
       match filterMapRule fuel r cs env with
       | .error e => .error e
-      | .ok rest => .ok (match m with | some x => x :: rest | none => rest)
+      | .ok rest => .ok (match m with | some _ => c :: rest | none => rest)    -- the sibling itself
 
 /-- `iter.find_map(finder)` where `finder` = the rule, optionally preceded by the `field` test of
 `Inside` (`expectId` = id of the node the walk came from; updated at every step) -/
@@ -406,16 +406,17 @@ def matchCore : (fuel : Nat) → RuleCore → Tree → Env → Except Abn (Optio
   | fuel + 1, core, n, env =>
     if !(kindsGate core.kinds n) then .ok (none, env)
     else
+      -- the rule and its constraints work on a scratch copy of the caller's env, committed on success
       match matchRule fuel core.rule n env with
       | .error e => .error e
-      | .ok (none, env') => .ok (none, env')
+      | .ok (none, _) => .ok (none, env)
       | .ok (some ret, env') =>
         -- `match_constraints`: scratch copy, committed when every constraint holds;
         -- the constrained captures are visited in the order of their variable names
         match constraintLoop fuel core.constraints (sortByName env'.single) env' with
         | .error e => .error e
         | .ok (true, env'') => .ok (some ret, env'')
-        | .ok (false, _) => .ok (none, env')
+        | .ok (false, _) => .ok (none, env)
 
 /-- the `for (var_id, candidate) in &self.single_matched` loop of `match_constraints` -/
 def constraintLoop : (fuel : Nat) → List (Name × Rule) → List (Name × Tree) → Env →
